@@ -53,6 +53,7 @@ func init() {
 			ruleNUM2(c)
 			ruleNUM2alias(c)
 			ruleNUM8(c, "NUM-8")
+			ruleFMT5(c) // rows that carry token numbers are shared only when they are equal (lossless row store)
 			ruleNUM3(c)
 			ruleNUM4(c)
 			ruleNUM5(c)
